@@ -20,7 +20,7 @@ def sh(cmd, cwd=WT, timeout=1800):
 
 
 def clean():
-    subprocess.run(f"git -C /repo worktree remove --force {WT}; git -C /repo worktree prune", shell=True)
+    subprocess.run(f"git -C /repo worktree remove --force {WT}; git -C /repo worktree prune; rm -rf {WT}.evidence", shell=True)
 
 
 demo = os.path.join(src, "demo_test.py")
